@@ -7,13 +7,25 @@ Tie:   PROGRAM correspondence.  The real library (configurations B: C++17 and BC
        of executed steps, invoked callbacks, final state and the multiset of (API call, blocks requested there)).
 Oracle (property text only, independent of the model): blocks <= executed pipeline steps; a combinator needs no more
        blocks for n in 17..64 than the largest count seen for n <= 16; Wait/WaitFor/WaitUntil on futures, Get,
-       Strand::Submit(job) and co_await of futures: 0 blocks."""
+       Strand::Submit(job) and co_await of futures: 0 blocks; on pipelines over payloads that own heap memory
+       (Future/FutureOn/Task<HeavyV | void, HeavyE>: constructing one is the user's and uses malloc, moving is free,
+       COPYING is counted and requests a block) the library makes ZERO payload copies — a copied error or value is one
+       more block for the step that copies it (hit key copy:payload-copied).  (The by-value recovery copy this oracle found
+       in 2666d07 was fixed in /repo by d85ca6f.)"""
 import collections, concurrent.futures, hashlib, json, os, random, re, shutil, subprocess, sys, time
 import vlib, runner
 
 NSHARDS = 16
 SRC = os.path.join(vlib.VERIF, "harness", "h_c20.cpp")
-W = ["F", "O", "T", "S", "SO"]
+W = ["F", "O", "T", "S", "SO", "HF", "HO", "HT"]   # H*: the heavy family Future/FutureOn/Task<HeavyV | void, HeavyE>
+
+
+def basek(w):
+    return w[1:] if w.startswith("H") else w
+
+
+def fam(w):
+    return "H" if w.startswith("H") else ""
 PAR = ["R", "V", "E", "X", "N", "U"]
 RET = ["I", "V", "RI", "RV", "FI", "FV", "OI", "OV", "TI", "TV", "SI", "SV"]
 EXECS = ["i", "m", "st", "s"]
@@ -125,10 +137,10 @@ def ret_void(r):
     return RET.index(r) & 1
 
 
-def ret_world(r):
+def ret_world(r, family=""):
     """handle type an async return class needs from the inner pipeline (None for plain / Result)"""
     if r[0] in "FOTS" and len(r) == 2:
-        return wi_of(r[0], "v" if r[1] == "V" else "i")
+        return wi_of(family + r[0], "v" if r[1] == "V" else "i")
     return None
 
 
@@ -177,12 +189,16 @@ def wire(p):
     return "(P " + " ".join([wire_src(p["src"])] + [wire_op(o) for o in p["ops"]]) + ")"
 
 
-G_W = {"F": "WF", "O": "WO", "T": "WT", "S": "WS", "SO": "WSO"}
+G_W = {"F": "WF", "O": "WO", "T": "WT", "S": "WS", "SO": "WSO", "HF": "WF", "HO": "WO", "HT": "WT"}
 G_V = {"i": "VInt", "v": "VVoid"}
 G_E = {"i": "XInline", "m": "XManual", "st": "XStrand", "s": "XStopped"}
 G_R = {"val": "RVal", "err": "RErr", "exc": "RExc"}
 G_P = {"R": "PResult", "V": "PValue", "E": "PError", "X": "PExc", "N": "PNone", "U": "PUnit"}
 G_M = {"ret": "BRet", "throw": "BThrow", "resval": "BResVal", "reserr": "BResErr", "resexc": "BResExc"}
+
+
+def g_v(s):
+    return "VHeavy" if s[1].startswith("H") and s[2] == "i" else G_V[s[2]]
 
 
 def g_bool(b):
@@ -205,17 +221,17 @@ def g_att(a):
 def g_src(s):
     k = s[0]
     if k == "ready":
-        return "(PReady %s %s %s)" % (G_W[s[1]], G_V[s[2]], G_R[s[3]])
+        return "(PReady %s %s %s)" % (G_W[s[1]], g_v(s), G_R[s[3]])
     if k == "contract":
-        return "(PContract %s %s %s %s %s)" % (G_W[s[1]], G_V[s[2]], G_E[s[3]], g_bool(s[4]), G_R[s[5]])
+        return "(PContract %s %s %s %s %s)" % (G_W[s[1]], g_v(s), G_E[s[3]], g_bool(s[4]), G_R[s[5]])
     if k == "run":
         return "(PRun %s %s %s)" % (G_W[s[1]], G_E[s[2]], g_fn(s[3]))
     if k == "prom":
-        return "(PProm %s %s %s %s %s %s)" % (G_W[s[1]], G_V[s[2]], G_E[s[3]], g_bool(s[4]), G_R[s[5]], g_bool(s[6]))
+        return "(PProm %s %s %s %s %s %s)" % (G_W[s[1]], g_v(s), G_E[s[3]], g_bool(s[4]), G_R[s[5]], g_bool(s[6]))
     inner = "PNil"
     for p in reversed(s[5]):
         inner = "(PCons %s %s)" % (gallina(p), inner)
-    return "(PCoro %s %s %s %s %s)" % (G_W[s[1]], G_V[s[2]], {"await": "MAwait", "coawait": "MCoAwait"}[s[3]], inner, G_R[s[4]])
+    return "(PCoro %s %s %s %s %s)" % (G_W[s[1]], g_v(s), {"await": "MAwait", "coawait": "MCoAwait"}[s[3]], inner, G_R[s[4]])
 
 
 def gallina(p):
@@ -273,10 +289,13 @@ def count_steps(p):
 class Gen:
     """Typed pipeline programs over the cell table of one harness binary."""
 
-    def __init__(self, cells, coro, rng):
+    def __init__(self, cells, coro, rng, heavy=False):
         self.c = cells
         self.coro = coro
         self.rng = rng
+        self.heavy = heavy
+        self.family = "H" if heavy else ""
+        self.worlds = list(range(11, 17)) if heavy else list(range(1, 11))
         # steps available in each world: (op builder, resulting world)
         self.then_by_world = collections.defaultdict(list)
         for (wi, a, p, r), out in cells["then"].items():
@@ -289,31 +308,32 @@ class Gen:
                 d[k].sort()
         # bridges: shortest op sequences between handle types (conversions and plain Result-taking steps)
         self.bridge = {}
-        for a in range(1, 11):
+        for a in self.worlds:
             self.bridge[a] = self._bfs(a)
 
     # -- sources
     def sources_of(self, wi, small=False):
         """every source form that produces handle type wi (small: one canonical form per kind)"""
         w, v = w_of(wi)
+        bk = basek(w)
         out = []
         ress = ["val", "err", "exc"]
-        if w in ("F", "T"):
+        if bk in ("F", "T"):
             out += [("ready", w, v, r) for r in ress]
-        if w in ("F", "O", "S", "SO"):
-            exs = ["i"] if w in ("F", "S") else EXECS
+        if bk in ("F", "O", "S", "SO"):
+            exs = ["i"] if bk in ("F", "S") else EXECS
             for e in exs:
                 for late in (False, True):
                     for r in ress:
                         out.append(("contract", w, v, e, late, r))
-        if w in ("F", "O", "SO", "T"):
-            exs = ["i"] if w == "F" else EXECS
+        if bk in ("F", "O", "SO", "T"):
+            exs = ["i"] if bk == "F" else EXECS
             for e in exs:
                 for late in (False, True):
                     for r in ress:
                         out.append(("prom", w, v, e, late, r, False))
                 out.append(("prom", w, v, e, False, "val", True))
-        if self.coro and w in ("F", "T", "S"):
+        if self.coro and bk in ("F", "T", "S"):
             for r in ress:
                 out.append(("coro", w, v, "await", r, []))
         if small:
@@ -328,10 +348,11 @@ class Gen:
     def run_sources_of(self, wi):
         """(exec list, par, ret) of the Run/Schedule cells whose function's own return makes handle type wi"""
         w, v = w_of(wi)
+        bk = basek(w)
         res = []
         for (wk, p, r), out in sorted(self.c["run"].items()):
             if out == wi:
-                exs = ["i"] if W[wk] in ("F", "S") else EXECS
+                exs = ["i"] if basek(W[wk]) in ("F", "S") else EXECS
                 res.append((W[wk], exs, p, r))
         return res
 
@@ -348,19 +369,20 @@ class Gen:
 
     def _edges(self, wi):
         w, v = w_of(wi)
+        bk = basek(w)
         e = []
-        if w == "O":
-            e.append((("onnull",), wi_of("F", v)))
-        if w == "SO":
-            e.append((("onnull",), wi_of("S", v)))
-        if w == "T":
-            e.append((("tofuture",), wi_of("F", v)))
-            e.append((("starton", "m"), wi_of("O", v)))
-        if w in ("F", "O"):
+        if bk == "O":
+            e.append((("onnull",), wi_of(fam(w) + "F", v)))
+        if bk == "SO":
+            e.append((("onnull",), wi_of(fam(w) + "S", v)))
+        if bk == "T":
+            e.append((("tofuture",), wi_of(fam(w) + "F", v)))
+            e.append((("starton", "m"), wi_of(fam(w) + "O", v)))
+        if bk in ("F", "O") and not fam(w):
             e.append((("split",), wi_of("S", v)))
-        if w in ("S", "SO"):
-            e.append((("share",), wi_of("F", v)))
-            e.append((("shareon", "m"), wi_of("O", v)))
+        if bk in ("S", "SO"):
+            e.append((("share",), wi_of(fam(w) + "F", v)))
+            e.append((("shareon", "m"), wi_of(fam(w) + "O", v)))
         for (a, p, r, out) in self.then_by_world.get(wi, []):
             if p == "R" and r in ("I", "V") and a != "inherit":
                 att = ("on", "m") if a == "on" else a
@@ -373,9 +395,9 @@ class Gen:
         mode = rng.choice(modes_of(ret))
         inner = None
         if mode == "async" and (depth <= 0 or budget[0] <= 0):
-            inner = self.canonical_inner(ret_world(ret), rng.randint(0, 3))
+            inner = self.canonical_inner(ret_world(ret, self.family), rng.randint(0, 3))
         elif mode == "async":
-            inner = self.pipe(ret_world(ret), depth - 1, budget, max_steps=rng.choice([0, 0, 1, 1, 2, 3]))
+            inner = self.pipe(ret_world(ret, self.family), depth - 1, budget, max_steps=rng.choice([0, 0, 1, 1, 2, 3]))
         return dict(par=par, ret=ret, mode=mode, inner=inner)
 
     def attach(self, a):
@@ -394,7 +416,7 @@ class Gen:
         s = rng.choice(plain)
         if s[0] == "coro" and depth > 0 and budget[0] > 0:
             k = rng.choice([0, 1, 1, 2, 3])
-            inners = [self.pipe(rng.randint(1, 10), depth - 1, budget, max_steps=rng.choice([0, 1, 2])) for _ in range(k)]
+            inners = [self.pipe(rng.choice(self.worlds), depth - 1, budget, max_steps=rng.choice([0, 1, 2])) for _ in range(k)]
             s = ("coro", s[1], s[2], rng.choice(["await", "coawait"]), s[4], inners)
         return s
 
@@ -402,7 +424,7 @@ class Gen:
         """a pipeline whose final handle type is `target` (None: anything, finished so that a Task is started)"""
         rng = self.rng
         ok = lambda wi: target is None or target in self.bridge[wi]
-        cur = rng.choice([wi for wi in range(1, 11) if ok(wi)])
+        cur = rng.choice([wi for wi in self.worlds if ok(wi)])
         src = self.source(cur, depth, budget)
         ops = []
         for _ in range(max_steps):
@@ -426,9 +448,9 @@ class Gen:
                     ops.append(op)
                     cur = b
         if target is None:
-            w = w_of(cur)[0]
+            bk = basek(w_of(cur)[0])
             r = rng.random()
-            if w == "T":
+            if bk == "T":
                 ops.append(rng.choice([("tofuture",), ("starton", rng.choice(["i", "m", "st"])), ("detach0",)]))
             elif r < 0.25 and self.detach_by_world.get(cur):
                 a, p, rr = rng.choice(self.detach_by_world[cur])
@@ -446,21 +468,22 @@ class Gen:
     def canonical_inner(self, wi, variant):
         """small inner pipelines producing handle type wi"""
         w, v = w_of(wi)
+        bk = basek(w)
         late = variant % 2 == 1
-        if w == "T":
+        if bk == "T":
             if variant < 2:
-                return dict(src=("ready", "T", v, "val"), ops=[])
-            return dict(src=("prom", "T", v, "m", late, "val", False),
+                return dict(src=("ready", w, v, "val"), ops=[])
+            return dict(src=("prom", w, v, "m", late, "val", False),
                         ops=[("then", "inherit", dict(par="R", ret="V" if v == "v" else "I", mode="ret", inner=None))])
-        if w == "F":
-            base = dict(src=("contract", "F", v, "i", late, "val" if variant < 2 else "err"), ops=[])
-        elif w == "O":
-            base = dict(src=("contract", "O", v, "m", late, "val" if variant < 2 else "exc"), ops=[])
-        elif w == "S":
-            base = dict(src=("contract", "S", v, "i", late, "val" if variant < 2 else "err"), ops=[])
+        if bk == "F":
+            base = dict(src=("contract", w, v, "i", late, "val" if variant < 2 else "err"), ops=[])
+        elif bk == "O":
+            base = dict(src=("contract", w, v, "m", late, "val" if variant < 2 else "exc"), ops=[])
+        elif bk == "S":
+            base = dict(src=("contract", w, v, "i", late, "val" if variant < 2 else "err"), ops=[])
         else:
-            base = dict(src=("contract", "SO", v, "m", late, "val"), ops=[])
-        if variant >= 2 and w in ("F", "O"):
+            base = dict(src=("contract", w, v, "m", late, "val"), ops=[])
+        if variant >= 2 and bk in ("F", "O"):
             base["ops"].append(("then", "inline", dict(par="R", ret="V" if v == "v" else "I", mode="ret", inner=None)))
         return base
 
@@ -469,13 +492,13 @@ class Gen:
         for m in modes_of(ret):
             if m == "async":
                 for k in variants:
-                    out.append(dict(par=par, ret=ret, mode=m, inner=self.canonical_inner(ret_world(ret), k)))
+                    out.append(dict(par=par, ret=ret, mode=m, inner=self.canonical_inner(ret_world(ret, self.family), k)))
             else:
                 out.append(dict(par=par, ret=ret, mode=m, inner=None))
         return out
 
     def finish(self, ops, cur):
-        if cur and w_of(cur)[0] == "T":
+        if cur and basek(w_of(cur)[0]) == "T":
             return ops + [("tofuture",)]
         return ops
 
@@ -484,7 +507,7 @@ class Gen:
         level >= 1: plus every pipeline of source + up to 3 steps over a reduced step alphabet."""
         progs = []
         # every source form alone
-        for wi in range(1, 11):
+        for wi in self.worlds:
             for s in self.sources_of(wi):
                 progs.append(dict(src=s, ops=self.finish([], wi)))
             for (w, exs, p, r) in self.run_sources_of(wi):
@@ -492,15 +515,16 @@ class Gen:
                     for f in self.fns_for(p, r):
                         progs.append(dict(src=("run", w, e, f), ops=self.finish([], wi)))
         # every then / detach cell x behaviour x input state x executor
-        for wi in range(1, 11):
+        for wi in self.worlds:
             w, v = w_of(wi)
+            bk = basek(w)
             srcs = []
             for r in ("val", "err", "exc"):
-                if w in ("F", "T"):
+                if bk in ("F", "T"):
                     srcs.append(("ready", w, v, r))
                 else:
                     srcs.append(("contract", w, v, "m", False, r))
-            srcs.append(("contract", w, v, "m" if w in ("O", "SO") else "i", True, "val") if w != "T" else ("prom", "T", v, "m", True, "val", False))
+            srcs.append(("contract", w, v, "m" if bk in ("O", "SO") else "i", True, "val") if bk != "T" else ("prom", w, v, "m", True, "val", False))
             for (a, p, r, out) in self.then_by_world[wi]:
                 for f in self.fns_for(p, r, variants=(0, 1, 3)):
                     for si, s in enumerate(srcs):
@@ -528,8 +552,9 @@ class Gen:
         {inline, on manual} x {R/ret, value-class/ret, R/async(F or T)} and the conversions"""
         progs = []
         alpha = {}
-        for wi in range(1, 11):
+        for wi in self.worlds:
             w, v = w_of(wi)
+            bk = basek(w)
             steps = []
             for (a, p, r, out) in self.then_by_world[wi]:
                 if a == "inherit":
@@ -541,15 +566,16 @@ class Gen:
                 if (p, r) in (("R", plain), (vp, flip)):
                     steps.append((("then", att, dict(par=p, ret=r, mode="ret", inner=None)), out))
                 if a == "inline" and p == "R" and r == ("TV" if v == "v" else "FI"):
-                    steps.append((("then", att, dict(par=p, ret=r, mode="async", inner=self.canonical_inner(ret_world(r), 1))), out))
+                    steps.append((("then", att, dict(par=p, ret=r, mode="async", inner=self.canonical_inner(ret_world(r, self.family), 1))), out))
             for op, b in self._edges(wi):
                 if op[0] != "then":
                     steps.append((op, b))
             alpha[wi] = steps
         starts = []
-        for wi in range(1, 11):
+        for wi in self.worlds:
             w, v = w_of(wi)
-            if w in ("F", "T"):
+            bk = basek(w)
+            if bk in ("F", "T"):
                 starts.append((("ready", w, v, "val"), wi))
             else:
                 starts.append((("contract", w, v, "m", True, "val"), wi))
@@ -697,6 +723,9 @@ def main(ck):
         "helper thread whose own allocations (none observed) are included in the count",
         "g++ 12 -O1, libstdc++; configurations B (C++17) and BC (C++20, coroutines); compile-time type space closed by the harness cell table "
         "(handle type x attach x parameter class x return class), value types int / void, error type StopError",
+        "payload copies: pipelines are also run over Future/FutureOn/Task<HeavyV | void, HeavyE> (full then/detach/run cell table of that family, no shared "
+        "futures); HeavyV / HeavyE count their copy constructions and allocate in them through operator new, tallied apart from the library's blocks; "
+        "callbacks take payloads by value (the library is expected to move them in)",
         "variadic combinator forms are instantiated for n = 1..64 on futures of int and for n in {1,2,3,4,5,8,16,17,33} on the other input combinations "
         "(shared, mixed value types, futures mixed with shared futures); iterator forms for n = 0..64 everywhere",
     ]
@@ -736,6 +765,16 @@ def main(ck):
         for i in range(nrand):
             budget = [rng.choice([4, 8, 12, 16] if thorough else [4, 6, 8, 12])]
             pipes.append(gen.pipe(None, rng.choice([0, 1, 2, 3]), budget, max_steps=rng.choice([1, 2, 3, 4, 6, 8] if thorough else [1, 2, 3, 4, 5])))
+        # the heavy family: Future / FutureOn / Task over <HeavyV | void, HeavyE> (payloads whose COPY is counted and allocates)
+        hgen = Gen(cells, coro, rng, heavy=True)
+        hpipes = hgen.systematic(2 if thorough else 1)
+        nhsys = len(hpipes)
+        nhrand = (15000 if thorough else 2500)
+        for i in range(nhrand):
+            budget = [rng.choice([4, 8, 12, 16] if thorough else [4, 6, 8, 12])]
+            hpipes.append(hgen.pipe(None, rng.choice([0, 1, 2, 3]), budget, max_steps=rng.choice([1, 2, 3, 4, 6, 8] if thorough else [1, 2, 3, 4, 5])))
+        nlight = len(pipes)
+        pipes += hpipes
         lines = ["pipe " + wire(p) for p in pipes]
         meta = [("pipe", p) for p in pipes]
         wg = when_groups(cells, maxn)
@@ -771,11 +810,15 @@ def main(ck):
         info["programs"] = len(lines)
         info["pipelines_systematic"] = nsys
         info["pipelines_random"] = nrand
+        info["heavy_pipelines_systematic"] = nhsys
+        info["heavy_pipelines_random"] = nhrand
         total_eval += sum(1 for r in res if r is not None and not r.get("skip"))
 
         # ---- oracle (property text only) + collect model terms
         by_group = collections.defaultdict(dict)
         observed = collections.Counter()
+        copy_hits = collections.Counter()
+        copies_seen = collections.Counter()
         per_call = collections.Counter()   # "<API call kind>:<blocks requested inside it>" over every executed call
         for i, (m, r) in enumerate(zip(meta, res)):
             if r is None or r.get("skip"):
@@ -789,8 +832,20 @@ def main(ck):
                     ck.hits.append(dict(what="%s: pipeline requested %d blocks for %d pipeline steps (calls: %s): %s" %
                                         (cfg, r["news"], r["steps"], r["frames"], lines[i]), key="pipe:more-than-one-per-step",
                                         replay=dict(harness="h_c20", config=cfg, lines=[lines[i]])))
+                heavy = p["src"][1].startswith("H")
+                if r["vcopies"] or r["ecopies"]:
+                    # every copy the library makes of a heap-owning payload is one more block for the step that makes it
+                    key = "copy:payload-copied"
+                    if copy_hits[key] < 25:
+                        ck.hits.append(dict(what="%s: the library copied the payload (value %d, error %d times; %d callbacks took the error by value) "
+                                                 "instead of moving it: %d extra block(s) over %d pipeline steps: %s" %
+                                                 (cfg, r["vcopies"], r["ecopies"], r["ecalls"], r["payload"], r["steps"], lines[i]),
+                                            key=key, replay=dict(harness="h_c20", config=cfg, lines=[lines[i]])))
+                    copy_hits[key] += 1
+                if heavy:
+                    copies_seen["value=%d error=%d by_value_error_callbacks=%d" % (r["vcopies"], r["ecopies"], r["ecalls"])] += 1
                 n, depth, kinds = count_steps(p)
-                dist[(cfg, p["src"][0], min(n, 9), min(depth, 3))] += 1
+                dist[(cfg, ("heavy " if heavy else "") + p["src"][0], min(n, 9), min(depth, 3))] += 1
                 observed["pipe blocks=%d" % r["news"]] += 1
                 for tok in r["frames"].split(","):
                     if tok:
@@ -856,6 +911,8 @@ def main(ck):
             "%s/%s/%s/%s=%d" % (KINDS[g[1]], FORMS[g[3]], IKS[g[4]], VSS[g[5]], r[0]["total"])
             for g, rows in by_group.items() if g[0] == "when" for n, r in rows.items() if n >= 2))
         info["observed_pipe_blocks"] = dict(observed)
+        info["heavy_payload_copies_observed"] = dict(copies_seen)
+        info["payload_copy_hits"] = dict(copy_hits)
         names = ["conversion", "MakeFuture/MakeTask", "contract", "Run/Schedule", "AsyncContract/LazyContract", "coroutine", "Then*",
                  "Detach*(f)/Subscribe*", "Detach()", "Split", "Share"]
         info["blocks_per_api_call"] = {"%s -> %s block(s)" % (names[int(k.split(":")[0])], k.split(":")[1]): v for k, v in sorted(per_call.items())}
@@ -881,8 +938,9 @@ def main(ck):
             continue
         if len(mt) == 5:
             _, i, line, r, p = mt
-            wf, blocks, steps, calls, st = val[:5]
-            sites = sorted(val[5:])
+            wf, blocks, steps, calls, st, m_ecopies, m_vcopies = val[:7]
+            sites = sorted(val[7:])
+            heavy = p["src"][1].startswith("H")
             why = None
             if wf != 1:
                 skipped_wf += 1     # a step inherits the executor of a coroutine that awaits: outside the model (oracle still applied)
@@ -899,6 +957,10 @@ def main(ck):
                 why = "implementation: final handle not ready / unstarted (%d)" % r["final"]
             elif sites != frames_codes(r["frames"]):
                 why = "model sites %s, implementation calls %s" % (sites, frames_codes(r["frames"]))
+            elif heavy and (r["ecopies"], r["vcopies"]) != (m_ecopies, m_vcopies):
+                why = "model: %d error / %d value payload copies, implementation: %d / %d" % (m_ecopies, m_vcopies, r["ecopies"], r["vcopies"])
+            elif r["payload"] != r["ecopies"] + r["vcopies"]:
+                why = "harness: %d payload blocks for %d copies" % (r["payload"], r["ecopies"] + r["vcopies"])
             elif r["outside"] != 0 or r["other"] != 0:
                 why = "implementation requested %d blocks outside any API call, %d on another thread" % (r["outside"], r["other"])
             if why:
@@ -960,7 +1022,8 @@ def main(ck):
         "(return, throw, Result value/error/exception, async inner pipeline ready / late / with a step) x input state (value, error, exception, late) "
         "x executor (inline, manual, strand, stopped); every pipeline of a source + <= 3 (thorough: 4) steps over a reduced alphabet "
         "(ThenInline / Then(manual) x Result- or value-taking x plain or unwrapping, and every conversion); plus seeded random typed pipelines "
-        "(nesting depth <= 3).  Fixed-shape programs = WhenAll/WhenAny/Join x policy x iterator|variadic x inputs (futures, shared, both) x values "
+        "(nesting depth <= 3); the same generators over the heavy family (value / error / exception inputs, skipped value-taking steps, recovery "
+        "callbacks, unwrapping, lazy Task, stopped executors = rejected submissions), where payload copies are counted.  Fixed-shape programs = WhenAll/WhenAny/Join x policy x iterator|variadic x inputs (futures, shared, both) x values "
         "(int, void, mixed) x outcome (all ok, first fails, last fails) x inputs early|late x n; Wait/WaitFor/WaitUntil x form x inputs x "
         "(ready, released by another thread, timeout, half ready) x n = 1..64; Get x handle x value type x ready|blocking; Strand::Submit x n = 0..64; "
         "co_await forms x inputs x ready|suspending x n (BC).  Every program's counts are compared with the model's.  distinct = program text; "
@@ -994,7 +1057,7 @@ def replay(ck, path):
             bad = True
     for line, o in rows:
         t = o.get("t")
-        if t == "pipe" and o["news"] > o["steps"]:
+        if t == "pipe" and (o["news"] > o["steps"] or o.get("vcopies", 0) or o.get("ecopies", 0)):
             bad = True
         if t in ("wait", "get") and o.get("news", 0) != 0 and not (t == "wait" and line.split()[3] != "0"):
             bad = True
